@@ -13,7 +13,7 @@ Decides:
  D cluster table  decision table of disambiguate_short over (declared short flag, declared short argument).
  B boundaries   offsets used to cut a cluster are byte offsets of character boundaries (char_indices + len_utf8; in
                 split_os_argument the width of the first character), never a constant or a character count
-                (found and fixed: `-ñ=v`).
+                (found and fixed: `-ñ=v`); the width helper itself is evaluated as a TABLE over lead bytes (UTF-8: 1/2/3/4).
 Does not decide: that split_os_argument as a whole is a correct transducer for every byte string."""
 import re
 from core import *
